@@ -21,10 +21,13 @@ def gw(text, ref, tech_detail, note_extra=""):
 CHECKS = {
     "C02": gw("Seeded schedule search over generated multi-channel, multi-sender/receiver programs on popen/bare/socket/proxied "
               "gateways; delivered order (queue-pop / callback order) compared with the wire order decoded by an independent "
-              "frame parser: exactly once, in order, right channel, nothing lost at EOF, timed receives lose nothing.",
+              "frame parser: exactly once, in order, right channel, nothing lost at EOF, timed receives lose nothing (also when the "
+              "deadline coincides with the close); strict request/response traffic with frames larger than the pipe on thread, "
+              "main_thread_only and gevent workers.",
               "DESIGN.md 3/C02", "history oracle vs. ground-truth wire log"),
     "C03": gw("Seeded schedule search over close histories (explicit close / end of body / reference drop) with in-flight data, "
-              "1-3 blocked receivers, waitclose callers and endmarker callbacks; probes after each observation.",
+              "1-3 blocked receivers, waitclose callers and endmarker callbacks on the peer and on the closing side; probes after "
+              "each observation; waitclose(timeout) on a still open channel; concurrent large frames on a sibling channel.",
               "DESIGN.md 3/C03", "history oracle with scripted post-observation probes"),
     "C04": (True, "fault_enumeration",
             "Crash-point enumeration: for a fixed generated family of 10 small workloads x {popen, socket} x {worker dies, "
@@ -36,20 +39,25 @@ CHECKS = {
             "phase), not over schedules.", "DESIGN.md 3/C04",
             TECH + "; byte-exact cut + SIGKILL enumeration, independent wire parser"),
     "C05": gw("Seeded search over topologies (popen / via / socket), worker programs (idle, blocked, busy, sleeping, "
-              "interrupt-swallowing, extra threads), injected SIGSTOP/SIGKILL/SIGINT, a blocked sender, timeouts {0.1,1,5} and "
-              "failing makegateway calls; oracle: terminate returns without raising within 2*T*(N+P)+1 simulated seconds, "
-              "group empty, every local child exited, failed makegateway leaves no process.",
+              "interrupt-swallowing (also ignoring SIGTERM), extra threads), injected SIGSTOP/SIGKILL/SIGINT, members exited "
+              "beforehand, a blocked sender, timeouts {0.1,1,5} and failing makegateway calls (id taken or raced, unknown via, "
+              "missing interpreter, unreachable host, death in bootstrap, failing chdir/nice step); oracle: terminate returns "
+              "without raising within 2*T+1 (local members) resp. 2*T*(N+P)+1 simulated seconds, group empty, every local "
+              "child exited when it returns, failed makegateway leaves no process.",
               "DESIGN.md 3/C05", "process/signal fault injection, bounded-liveness oracle in simulated time",
               "Two terminate-blocked scenarios are listed known findings."),
     "C06": gw("Seeded schedule search over generated remote programs in all three forms (string, function + kwargs, module file) "
-              "with sends, receives, a refused close() and a raise at a generated statement: namespace, type-exact kwargs, items, "
+              "with sends, receives, a refused close() and a raise at a generated statement, several signature shapes, leading "
+              "blank lines, optional gateway-level string reconfiguration: namespace, type-exact kwargs, items, "
               "close exactly at the end of the body, RemoteError naming the original file and line; and invalid function "
               "shapes rejected with ValueError/TypeError while the wire log stays byte-identical.",
               "DESIGN.md 3/C06", "generated-source programs; history oracle; wire-length invariant for local rejection",
               "The stdio clause (nothing printed remotely enters the protocol stream) depends on real fd redirection, which is "
               "the stubbed part: NOT decided."),
     "C07": gw("Seeded schedule search over failure positions of raising bodies / raising callbacks (channel alive or dropped) "
-              "with sibling traffic and a liveness probe; scripted expected outcomes per op.",
+              "with sibling traffic and a liveness probe; failing exception varies (Exception / BaseException subclass, "
+              "non-ASCII and unencodable messages, failing str()); error fetched before or after the connection ended; "
+              "scripted expected outcomes per op.",
               "DESIGN.md 3/C07", "scripted-expectation oracle",
               "The dropped-channel sub-case is a listed known finding."),
     "C08": gw("(a) real Message.to_io/from_io + BaseGateway._send over real Popen2IO/SocketIO on simulated pipes/sockets with "
@@ -68,11 +76,13 @@ CHECKS = {
         TECH + "; pool-only harness, history oracle",
     ),
     "C10": gw("Seeded schedule search over setcallback placements (before/between/after in-flight items and the peer's close), "
-              "endings by end-of-body / raise / sub-channel close / SIGKILL, receive() probes and MultiChannel receive queues; "
+              "endings by end-of-body / raise / sub-channel close / SIGKILL (also of a proxied sub), dropped or locally closed "
+              "receivers, endmarker values incl. None and falsy ones, receive() probes and MultiChannel receive queues; "
               "callback sequence compared with the wire order from the hand-over point, endmarker exactly once.",
               "DESIGN.md 3/C10", "history oracle vs. ground-truth wire log; kill faults"),
     "C11": gw("Seeded search over the moment and manner of losing the initiator (SIGKILL at a sync point, byte-exact cut inside "
-              "a frame, normal exit, write side closed only, death of a via master) x worker programs x backends x topologies; "
+              "a frame, normal exit, write side closed only, death of a via master) x worker programs (incl. a callback left on a "
+              "dropped channel and refused remote_execs on a busy main_thread_only worker) x backends x topologies; "
               "the real 5 s / SIGINT / 10 s / os._exit ladder runs in simulated time; oracle: every worker has exited within "
               "16 simulated seconds per hop.",
               "DESIGN.md 3/C11", "crash injection, bounded-liveness oracle in simulated time"),
@@ -81,26 +91,30 @@ CHECKS = {
             "EVERY offset, every single-byte substitution (dumps <= 24 bytes, sampled above), sampled deletions / insertions / "
             "duplicated and zeroed ranges / bit flips / length-field bombs and 2-3 fault combinations, through loads() and "
             "load(stream); oracle: value of supported types only, or DataFormatError/EOFError; no strict prefix loads; no "
-            "side effect (audit hook).",
+            "side effect (audit hook); every load bounded by an interval timer (termination).",
             "No scheduler is involved (the fault sequence is the input): this is the weakest fit to the technique and is "
             "claimed only as enumeration of torn-write / flipped-stored-byte faults. Runs under RLIMIT_AS; the allocation by a "
             "damaged length field is a listed known finding.", "DESIGN.md 3/C13",
             "fault enumeration on stored bytes (torn write at every offset, byte substitution), typed-error oracle + audit hook"),
-    "C14": gw("Seeded schedule search over histories of 1-5 remote_exec outcomes (return/raise/SystemExit/SIGINT/blocked) with "
+    "C14": gw("Seeded schedule search over histories of 1-5 remote_exec outcomes (return, also leaving a callback on its channel / "
+              "raise incl. EOFError and BaseException subclasses / receive ended by the initiator / SystemExit / SIGINT / blocked) with "
               "sequential and overlapping submission on main_thread_only workers: main-thread identity, one at a time, "
               "submission order, documented deadlock error for overlaps only.",
               "DESIGN.md 3/C14", "scripted-expectation oracle + body-span checks"),
-    "C15": gw("C16's deterministic channel scripts run on an import-bootstrapped worker (reference) and on five source-only "
-              "bootstrap paths (python=, ssh, ssh+config, via a bare master, socket server on a bare master) whose workers "
+    "C15": gw("C16's deterministic channel scripts run on an import-bootstrapped worker (reference) and on seven source-only "
+              "bootstrap paths (python=, ssh, ssh+config, vagrant_ssh, vagrant_ssh+config, via a bare master, socket server on a "
+              "bare master; one run in seven with EXECNET_DEBUG=1) whose workers "
               "execute the shipped bytes in a fresh __main__ under an import guard that refuses execnet and non-stdlib modules; "
               "transcripts identical, bootstrap kind and argv shape of every child checked.",
               "DESIGN.md 3/C15", "differential transcripts bare vs import bootstrap; import guard on executed paths",
               "Emulation limits: no real interpreter / -S -E / ssh; only executed paths are judged (a static 'no reference on "
               "any path' reading is not decided)."),
     "C16": gw("The same generated schedule-independent two-party channel program (items to 200 KB both ways, sub-channels bare and "
-              "nested, callback bursts, closes, makefile reads, final return/raise) is run on popen, bare popen, socket and "
+              "nested, callback bursts, closes, makefile reads, two concurrent writers of large frames, final return / raise / "
+              "gateway.exit() with items still to deliver) is run on popen, bare popen, socket and "
               "proxied gateways under independent seeded schedules; transcripts must be identical and match the scripted "
-              "reference outcomes. Control family: ProxyIO kill/close_write/wait must reach the proxied process.",
+              "reference outcomes (incl. the execmodel the worker reports). Control family: ProxyIO kill/close_write/wait and "
+              "Group.terminate of a stopped sub must reach the proxied process.",
               "DESIGN.md 3/C16", "differential transcripts across transports + scripted reference model"),
     "C17": gw("Real RSync + real rsync_remote over 1-3 simulated workers on a REAL scratch file system: generated trees, prior "
               "target states, delete flag, cwd, modify-then-resync steps, seeded listdir order and schedules of the multiplexed "
@@ -118,8 +132,10 @@ CHECKS = {
               "side: one item per write, flush, proxyclose on/off, write after close.",
               "DESIGN.md 3/C19", "reference-model (StringIO/BytesIO) lock-step oracle under arrival-timing schedules"),
     "C20": gw("Seeded schedule search (targeted preemption in allocate_id/_register/makegateway) over 2-3 tasks concurrently "
-              "creating gateways with auto and colliding explicit ids and exiting them; container-protocol snapshots after "
-              "every step (ids pairwise distinct, lookup by id/index/membership agree, auto ids never repeat, nothing left "
+              "creating gateways with auto and colliding explicit ids (also deliberately failing specs followed by a retry, and "
+              "allocate_id(spec) then makegateway(spec)) and exiting them once or twice; container-protocol snapshots after "
+              "every step (ids pairwise distinct, lookup by id/index/membership agree - also for every gateway object ever "
+              "created -, auto ids never repeat, a refusal needs a holder or a call in flight, nothing left "
               "behind); the spec-parsing clause is checked on generated strings against an independent parser.",
               "DESIGN.md 3/C20", "concurrent-creation schedules + reference container model; input part reported separately",
               "The spec-parsing clause has no schedule in it (input coverage only); the literal key 'env' is a listed known finding."),
